@@ -404,6 +404,26 @@ func runC09(p *Prog, l *Ledger) {
 				if snapLoad != nil && order[snapLoad] > order[resets[0]] {
 					bad2 = append(bad2, fmt.Sprintf("%s: the snapshot is read after the window was reset", p.At(snapLoad)))
 				}
+				// a component that reads the window it closes from its own field hands it over in one critical section:
+				// between reading the snapshot and installing the empty window the component's lock is not released,
+				// or a completion recorded in between is folded into a window nobody will see
+				if snapLoad != nil && order[snapLoad] < order[resets[0]] {
+					pa.Each(func(step int, ins ssa.Instruction) bool {
+						if order[ins] <= order[snapLoad] || order[ins] >= order[resets[0]] {
+							return true
+						}
+						if call, ok := ins.(*ssa.Call); ok {
+							if op, k := p.lockOpOf(p.CallOf(call)); op == opUnlock || op == opRUnlock {
+								for _, m := range mutexFields(s.comp) {
+									if strings.HasSuffix(k, "."+m) {
+										bad2 = append(bad2, fmt.Sprintf("%s: the component's lock is released between reading the window that is closed and installing the empty one: a completion recorded in between is lost", p.At(ins)))
+									}
+								}
+							}
+						}
+						return true
+					})
+				}
 			}
 			if !nextF.Valid() || len(nextStores) != 1 {
 				bad2 = append(bad2, fmt.Sprintf("nextUpdateTime is stored %d times on a path that updates the algorithm (want once)", len(nextStores)))
